@@ -62,6 +62,8 @@ DIRECTED = [
     (2, "0:ur;0:uw;0:lr;0:uw;0:ur;1:lw;1:ur;1:uw"),             # unmatched unlocks
     (3, "0:lw;0:lw;0:uw;0:uw;1:lrt;1:ur;2:lwt;2:uw"),           # recursion + try
     (3, "0:lr;1:lw;2:lr"),                                      # never released: legitimate stranding
+    (3, "0:lw;0:uw;1:lwd;1:uw;2:lw;2:uw"),                      # a timed writer gives up exactly when the lock is handed to it; a writer queued behind
+    (3, "0:lw;0:uw;1:lrd;1:ur;2:lw;2:uw"),                      # same with a timed reader in front of a writer
 ]
 
 EXPLORE_QUICK = [
@@ -69,6 +71,9 @@ EXPLORE_QUICK = [
     (3, "0:lr;0:ur;1:lw;1:uw;2:lr;2:ur", 1),
     (3, "0:lw;0:uw;1:lrd;1:ur;2:lwd;2:uw", 1),
     (2, "0:lw;0:uw;1:lwd;1:uw", 2),
+    # time-out / hand-off races with somebody queued behind: every schedule with <= 2 preemptions (about 400 each)
+    (3, "0:lw;0:uw;1:lwd;1:uw;2:lw;2:uw", 2),
+    (3, "0:lw;0:uw;1:lrd;1:ur;2:lw;2:uw", 2),
 ]
 
 
@@ -113,7 +118,7 @@ class CHECK(vlib.Check):
 
     def gen_cases(self, rng, tier):
         out = []
-        n_rand = 800 if tier == "quick" else 12000
+        n_rand = 600 if tier == "quick" else 12000
         for i in range(n_rand):
             n = rng.choice([2, 2, 3, 3, 3, 4])
             if i % 5 == 4:
@@ -124,7 +129,7 @@ class CHECK(vlib.Check):
                 stream = "random"
             seed = "-" if i % 10 == 0 else str(rng.randint(1, 10 ** 9))
             out.append((stream, "p=%d,n=%d,seed=%s,sch=|%s" % (rng.randint(0, 1), n, seed, interleave(rng, progs))))
-        reps = 8 if tier == "quick" else 60
+        reps = 6 if tier == "quick" else 60
         for (n, body) in DIRECTED:
             for pref in (0, 1):
                 out.append(("directed", "p=%d,n=%d,seed=-,sch=|%s" % (pref, n, body)))
@@ -133,9 +138,9 @@ class CHECK(vlib.Check):
         # exhaustive schedules up to a preemption bound (support for the tie, not the theorem)
         if getattr(self, "_impl", None):
             if tier == "quick":
-                todo = [(n, b, k, 400) for (n, b, k) in EXPLORE_QUICK]
+                todo = [(n, b, k, 600) for (n, b, k) in EXPLORE_QUICK]
             else:
-                todo = [(n, b, 2, 6000) for (n, b) in DIRECTED[:8]] + [(n, b, 3, 6000) for (n, b, _) in EXPLORE_QUICK[:2]]
+                todo = [(n, b, 2, 6000) for (n, b) in DIRECTED[:8] + DIRECTED[-2:]] + [(n, b, 3, 6000) for (n, b, _) in EXPLORE_QUICK[:2] + EXPLORE_QUICK[-2:]]
             if not getattr(self, "_explored", None) or self._explored[0] != tier:
                 cache = []
                 for (n, body, bound, cap) in todo:
